@@ -71,6 +71,13 @@ class InElastic(_Simu):
         self.__z: dict["ElemType", FeArray] = {}
         self.__zOld: dict["ElemType", FeArray] = {}
 
+    @_Simu.mesh.setter  # type: ignore [attr-defined]
+    def mesh(self, mesh: "Mesh"):
+        _Simu.mesh.fset(self, mesh)  # type: ignore [attr-defined]
+        # the displacement is re-initialised on a new mesh: the internal variables restart with it
+        self.__z = {}
+        self.__zOld = {}
+
     @property
     def dt(self) -> float:
         """Time increment, read by a rate-dependent material."""
